@@ -535,6 +535,43 @@ theorem ordRank_lt (row : List α) (i k : Nat) (vi vk : α) (hi : row[i]? = some
   simp only at this ⊢
   omega
 
+theorem countBelow_le (i : Nat) (vi : α) (l0 : Nat) (row : List α) :
+    countBelow i vi l0 row ≤ row.length := by
+  induction row generalizing l0 with
+  | nil => simp [countBelow]
+  | cons x xs ih =>
+    have := ih (l0 + 1)
+    simp only [countBelow, List.length_cons]
+    split <;> omega
+
+theorem countBelow_lt (i : Nat) (vi : α) (l0 : Nat) (row : List α) (j : Nat) (x : α)
+    (hj : row[j]? = some x) (h : below i vi (l0 + j) x = false) :
+    countBelow i vi l0 row + 1 ≤ row.length := by
+  induction row generalizing l0 j with
+  | nil => simp at hj
+  | cons y ys ih =>
+    simp only [countBelow, List.length_cons]
+    cases j with
+    | zero =>
+      simp at hj; subst hj
+      simp only [Nat.add_zero] at h
+      rw [h]
+      have := countBelow_le i vi (l0 + 1) ys
+      simp; omega
+    | succ j =>
+      simp at hj
+      have := ih (l0 + 1) j hj (by rwa [show l0 + 1 + j = l0 + (j + 1) by omega])
+      split <;> omega
+
+/-- an ordinal rank never exceeds the number of entries: the forced rank `n + 1` is above all of them -/
+theorem ordRank_le_length (row : List α) (i : Nat) : ordRank row i ≤ row.length := by
+  unfold ordRank
+  cases hi : row[i]? with
+  | none => simp
+  | some vi =>
+    have := countBelow_lt i vi 0 row i vi hi (by simp [below, eqv])
+    simp only; omega
+
 end RankL
 section RankRowL
 variable {α : Type} [Field α] [LinearOrder α] [IsStrictOrderedRing α]
@@ -542,37 +579,11 @@ variable {α : Type} [Field α] [LinearOrder α] [IsStrictOrderedRing α]
 theorem rankRow_getD (ninf : α) (cast : Nat → α) (row : List (Option α)) (chosen i : Nat) :
     (rankRow ninf cast row chosen).getD i none =
       if i < row.length then
-        maskRank cast (ordRank ((row.map (fillNaN ninf)).set chosen
-          (forcedTop ninf (row.map (fillNaN ninf)))) i) (row.getD i none)
+        maskRank cast (chosenRank row.length chosen (ordRank (row.map (fillNaN ninf)) i) i) (row.getD i none)
       else none := by
   unfold rankRow
   simp only [List.getD_eq_getElem?_getD, List.getElem?_map]
   split <;> simp_all
-
-theorem forcedTop_gt (ninf : α) (filled : List α) (i : Nat) (x : α) (h : filled[i]? = some x) :
-    x < forcedTop ninf filled := by
-  unfold forcedTop
-  have hmem : some x ∈ filled.map some := by
-    exact List.mem_map.mpr ⟨x, List.mem_of_getElem? h, rfl⟩
-  cases hm : nanmax (filled.map some) with
-  | none => exact absurd ((nanmax_none_iff _).mp hm _ hmem) (by simp)
-  | some mx =>
-    have := (nanmax_spec _ mx hm).2 x hmem
-    simp only
-    linarith
-
-/-- the chosen sample gets the top rank -/
-theorem rank_chosen_top (ninf : α) (row : List (Option α)) (chosen i : Nat)
-    (hc : chosen < row.length) (hi : i < row.length) (hne : i ≠ chosen) :
-    ordRank ((row.map (fillNaN ninf)).set chosen (forcedTop ninf (row.map (fillNaN ninf)))) i <
-    ordRank ((row.map (fillNaN ninf)).set chosen (forcedTop ninf (row.map (fillNaN ninf)))) chosen := by
-  generalize hf : row.map (fillNaN ninf) = filled
-  have hlen : filled.length = row.length := by rw [← hf]; simp
-  have h1 : (filled.set chosen (forcedTop ninf filled))[chosen]? = some (forcedTop ninf filled) := by
-    rw [List.getElem?_set_self (by omega)]
-  have h2 : (filled.set chosen (forcedTop ninf filled))[i]? = some filled[i] := by
-    rw [List.getElem?_set_ne (fun e => hne e.symm), List.getElem?_eq_getElem (by omega)]
-  exact ordRank_lt _ i chosen _ _ h2 h1 (forcedTop_gt ninf filled i _ (List.getElem?_eq_getElem (by omega)))
 
 theorem sMatrix_getElem? (m : Nat) (avail : List Bool) (au : List α) (rk : List (Option α)) (p : Nat) :
     (sMatrix m avail au rk)[p]? =
@@ -751,16 +762,22 @@ theorem good_init (ninf : α) (cast : Nat → α) (m : Nat) (A : List (List Bool
             split at hr'
             · rename_i hi
               -- ranks
-              have hlt := rank_chosen_top ninf row s (q' / m) (by omega) hi h4
+              have hlt : ordRank (row.map (fillNaN ninf)) (q' / m) < row.length + 1 := by
+                have := ordRank_le_length (row.map (fillNaN ninf)) (q' / m)
+                simp only [List.length_map] at this; omega
               -- unpack maskRank
-              have e1 : r = cast (ordRank ((row.map (fillNaN ninf)).set s (forcedTop ninf (row.map (fillNaN ninf)))) s) := by
+              have e1 : r = cast (row.length + 1) := by
                 cases hx : row.getD s none with
                 | none => rw [hx] at hr; simp [maskRank] at hr
-                | some x => rw [hx] at hr; simp only [maskRank] at hr; injection hr with hr; exact hr.symm
-              have e2 : r' = cast (ordRank ((row.map (fillNaN ninf)).set s (forcedTop ninf (row.map (fillNaN ninf)))) (q' / m)) := by
+                | some x =>
+                  rw [hx] at hr; simp only [maskRank, chosenRank, if_true] at hr
+                  injection hr with hr; exact hr.symm
+              have e2 : r' = cast (ordRank (row.map (fillNaN ninf)) (q' / m)) := by
                 cases hx : row.getD (q' / m) none with
                 | none => rw [hx] at hr'; simp [maskRank] at hr'
-                | some x => rw [hx] at hr'; simp only [maskRank] at hr'; injection hr' with hr'; exact hr'.symm
+                | some x =>
+                  rw [hx] at hr'; simp only [maskRank, chosenRank, if_neg h4] at hr'
+                  injection hr' with hr'; exact hr'.symm
               have hc := hcast _ _ hlt
               have ha1 := hau01 a (List.mem_of_getElem? ha)
               have ha2 := hau01 a' (List.mem_of_getElem? ha')
@@ -778,10 +795,9 @@ theorem good_init (ninf : α) (cast : Nat → α) (m : Nat) (A : List (List Bool
     rw [h1, h2, hcs]
     simp only
     have hr : (rankRow ninf cast candRows[t] sIdx[t]).getD sIdx[t] none =
-        some (cast (ordRank ((candRows[t].map (fillNaN ninf)).set sIdx[t]
-          (forcedTop ninf (candRows[t].map (fillNaN ninf)))) sIdx[t])) := by
+        some (cast (candRows[t].length + 1)) := by
       rw [rankRow_getD, if_pos (by omega), List.getD_eq_getElem?_getD, hw]
-      rfl
+      simp [maskRank, chosenRank]
     exact blockCount_init m A hrect au hau _ _ hs _ hr
 
 end Init2
@@ -1655,5 +1671,28 @@ theorem assignInit_eq_of_le (nmax pref : List Nat) (h : LeL pref nmax) : assignI
       have := ih ns h.2
       simp only [assignInit, List.zipWith_cons_cons] at this ⊢
       rw [this, Nat.min_eq_right h.1]
+
+namespace Regressions
+
+/-- numbers with a `-inf` that absorbs addition (`-inf + 1 = -inf`), as IEEE doubles do -/
+inductive Ext where
+  | negInf
+  | fin (n : Nat)
+  deriving DecidableEq, Repr
+
+def Ext.lt : Ext → Ext → Bool
+  | .negInf, .negInf => false
+  | .negInf, .fin _ => true
+  | .fin _, .negInf => false
+  | .fin a, .fin b => decide (a < b)
+
+instance : LT Ext := ⟨fun a b => Ext.lt a b = true⟩
+instance : DecidableLT Ext := fun a b => inferInstanceAs (Decidable (Ext.lt a b = true))
+instance : Add Ext := ⟨fun a b => match a, b with
+  | .fin x, .fin y => .fin (x + y)
+  | _, _ => .negInf⟩
+instance : OfNat Ext 1 := ⟨.fin 1⟩
+
+end Regressions
 
 end Ska.MultiAnnot
